@@ -157,6 +157,8 @@ pub struct RunCfg {
     pub seed: u64,
     /// trigger a coordinated checkpoint after these input indices (C27)
     pub checkpoints_at: Vec<usize>,
+    /// the run counts as quiescent when the trace has not grown for this long
+    pub stable_ms: u64,
 }
 
 /// H7 state is process-global: callers serialise runs with this lock.
@@ -212,7 +214,7 @@ pub fn run_contexts(p: &CProg, events: &[Event], cfg: &RunCfg) -> RunOut {
     let mut last_len = usize::MAX;
     let mut stable_since = Instant::now();
     let mut quiesced = false;
-    while start.elapsed() < Duration::from_secs(6) {
+    while start.elapsed() < Duration::from_millis(6000 + 4 * cfg.stable_ms) {
         while let Ok(o) = out_rx.try_recv() {
             outputs.push(o);
         }
@@ -225,7 +227,7 @@ pub fn run_contexts(p: &CProg, events: &[Event], cfg: &RunCfg) -> RunOut {
         if len != last_len {
             last_len = len;
             stable_since = Instant::now();
-        } else if stable_since.elapsed() > Duration::from_millis(120) {
+        } else if stable_since.elapsed() > Duration::from_millis(cfg.stable_ms) {
             quiesced = true;
             break;
         }
